@@ -963,6 +963,12 @@ func (g *gen) literalNoVar(t *ast.Type, depth int, constOnly bool) string {
 		if t.NamedType == "ID" && len(g.o.IDs) > 0 && g.chance(50, "realid") {
 			return jsonStr(g.o.IDs[g.pick(len(g.o.IDs), "idlit")]) // an id of an existing entity (the id hint recognises it)
 		}
+		if t.NamedType == "String" && g.chance(8, "blockstr") {
+			// block strings: an escaped triple quote, quotes at the end of the text, several indented lines
+			g.label("blockString")
+			pool := []string{`"""block text"""`, `"""say \"""hi\""" twice"""`, `"""ends with quotes\""""""`, "\"\"\"\n    first line\n      second \"line\"\n    \"\"\"", `""" "quoted" """`}
+			return pool[g.pick(len(pool), "blockstrv")]
+		}
 		return jsonStr(g.str())
 	}
 }
